@@ -239,7 +239,8 @@ def fs_open(path, mode="r", gz=False):
 
 class SGzReader:
     """gzip.open(path, 'rb'): the failure classes of CPython's gzip on a file that is not a complete
-    gzip stream are OSError (BadGzipFile), EOFError (truncated) and zlib.error"""
+    gzip stream are OSError (BadGzipFile), EOFError (truncated) and zlib.error; a file of length 0 is
+    read as b"" without error (checked natively by tools/model_probes.py)"""
     _pyvc_symbolic = True
 
     def __init__(self, fs, entry, content):
@@ -254,6 +255,10 @@ class SGzReader:
             return ct.payload
         c.trust("gzip read of a file that is not a complete gzip stream raises BadGzipFile (OSError), EOFError or zlib.error")
         if isinstance(ct, GzBytes):
+            # CPython's gzip reads a file of length 0 as an empty stream (returns b""); any longer strict
+            # prefix of a gzip member raises EOFError (or BadGzipFile inside the 10-byte header)
+            if c.interp.truth(c.bool("interrupted_before_the_first_byte_reached_the_file")):
+                return SBytes.from_concrete(b"")
             raise RaiseSig(EOFError("Compressed file ended before the end-of-stream marker was reached"))
         if getattr(ct, "maybe_gzip", False) and c.interp.truth(c.bool("initial_file_is_valid_gzip")):
             payload = SBytes.fresh(c, c.fresh_name("gz_payload"), inp=False)
